@@ -30,7 +30,7 @@ META = {
     "level_note": "Trusted: T3 (Phi' = A Phi, A^T W + W A = 0 => Phi^T W Phi = W), T4 (solution of the variational equation "
                   "is the derivative of the flow), numpy.linalg.eig. Not decided: numerical accuracy of the integrated Phi; "
                   "'monodromy maps the orbit velocity to itself' (consequence of T4, no code). _compute_nu_from_eigvals is "
-                  "only covered through _calc_stability_index (pairing loop over complex isclose not under contract).",
+                  "only covered through _calc_stability_index (pairing loop over complex isclose not under contract). The Jacobian identity A(x) = Df(x) and the systems-in-a-row obligation are shared with C01.",
     "technique": "exact identities over symbolic execution of the real functions (sympy normal form) + recorded-callee wiring contracts",
 }
 
